@@ -467,8 +467,12 @@ def finish(rep, rule, trusted_base, assumptions, checker_cmd, level='proof'):
         'wall_s': round(wall, 2),
         'violations': len(rep.violations),
     }
-    os.makedirs(os.path.join(VERIF, 'evidence'), exist_ok=True)
-    with open(os.path.join(VERIF, 'evidence', rep.prop + '.json'), 'w') as f:
+    # evidence/ only ever holds runs against /repo itself; runs against another tree
+    # (PYNDL_REPO=<scratch copy with a seeded change>) go to a git-ignored directory
+    evdir = 'evidence' if os.path.realpath(REPO) == '/repo' else 'evidence_other_tree'
+    ev['repo'] = os.path.realpath(REPO)
+    os.makedirs(os.path.join(VERIF, evdir), exist_ok=True)
+    with open(os.path.join(VERIF, evdir, rep.prop + '.json'), 'w') as f:
         json.dump(ev, f, indent=1, ensure_ascii=False, default=str)
     for l in lines:
         print(l)
